@@ -96,26 +96,38 @@ fn parse_double_input(s: String) -> Result<f64, RuntimeError> {
 }
 
 fn parse_long_input(s: String) -> Result<i64, RuntimeError> {
-    if s.is_empty() {
-        Ok(0)
-    } else {
-        let l = s
-            .parse::<i64>()
-            .map_err(|e| RuntimeError::Other(format!("Could not parse {} as long: {}", s, e)))?;
-        if (rusty_bit_vec::MIN_LONG..=rusty_bit_vec::MAX_LONG).contains(&l) {
-            Ok(l)
-        } else {
-            Err(RuntimeError::Overflow)
-        }
-    }
+    parse_whole_number_input(s, rusty_bit_vec::MIN_LONG, rusty_bit_vec::MAX_LONG, "long")
 }
 
 fn parse_int_input(s: String) -> Result<i32, RuntimeError> {
+    parse_whole_number_input(
+        s,
+        rusty_bit_vec::MIN_INTEGER as i64,
+        rusty_bit_vec::MAX_INTEGER as i64,
+        "int",
+    )
+    .map(|l| l as i32)
+}
+
+/// Parses the input for an INTEGER or LONG variable: a number with a fraction
+/// is rounded, a number outside the range of the type is an overflow.
+fn parse_whole_number_input(
+    s: String,
+    min: i64,
+    max: i64,
+    type_name: &str,
+) -> Result<i64, RuntimeError> {
     if s.is_empty() {
-        Ok(0)
+        return Ok(0);
+    }
+    let d = s
+        .parse::<f64>()
+        .map_err(|e| RuntimeError::Other(format!("Could not parse {} as {}: {}", s, type_name, e)))?;
+    let rounded = d.round();
+    if rounded.is_finite() && rounded >= min as f64 && rounded <= max as f64 {
+        Ok(rounded as i64)
     } else {
-        s.parse::<i32>()
-            .map_err(|e| RuntimeError::Other(format!("Could not parse {} as int: {}", s, e)))
+        Err(RuntimeError::Overflow)
     }
 }
 
